@@ -259,6 +259,89 @@ class Sem:
             return new
         return e
 
+    # ------------------------------------------------------------------ elements of list-valued expressions
+    def comp_element(self, lc: ast.AST, at: int, depth: int = 6) -> ast.AST:
+        """Element of a list comprehension / generator as an expression over abstract iteration indices: generator
+        variables are replaced by element accesses of their (resolved) iterables; filters are ignored (callers that care
+        inspect `lc.generators[i].ifs`)."""
+        sub: Dict[str, ast.AST] = {}
+
+        class _D:  # duck-typed Def for _loop_target_value
+            def __init__(self, g):
+                self.stmt = g
+        for g in lc.generators:
+            it_res = self._subst(self.resolve(self._subst(g.iter, sub), at, depth), {})
+            g2 = ast.comprehension(target=g.target, iter=it_res, ifs=g.ifs, is_async=0)
+            g2.lineno = getattr(lc, "lineno", 0)
+            self._iter_ids.setdefault(id(g2), self._iter_name(g))
+            for n in ast.walk(g.target):
+                if isinstance(n, ast.Name):
+                    v = self._loop_target_value(_D(g2), n.id)
+                    if v is not None:
+                        sub[n.id] = v
+        elt = lc.elt if not isinstance(lc, ast.DictComp) else ast.Tuple(elts=[lc.key, lc.value], ctx=ast.Load())
+        bound = {n.id for g in lc.generators for n in ast.walk(g.target) if isinstance(n, ast.Name)}
+        out = self._subst(elt, sub)
+        out = self._res_comp(out, at, depth, set(), True, bound - set(sub))
+        return self.simplify(out, at, depth)
+
+    def _subst(self, e: ast.AST, sub: Dict[str, ast.AST]) -> ast.AST:
+        if isinstance(e, ast.Name) and isinstance(e.ctx, ast.Load) and e.id in sub:
+            return sub[e.id]
+        if isinstance(e, ast.AST):
+            new = copy.copy(e)
+            for fname, v in ast.iter_fields(e):
+                if isinstance(v, ast.AST) and not isinstance(v, (ast.expr_context, ast.operator, ast.unaryop, ast.cmpop, ast.boolop)):
+                    setattr(new, fname, self._subst(v, sub))
+                elif isinstance(v, list):
+                    setattr(new, fname, [self._subst(x, sub) if isinstance(x, ast.AST) and not isinstance(x, ast.cmpop) else x for x in v])
+            return new
+        return e
+
+    def simplify(self, e: ast.AST, at: int, depth: int = 6) -> ast.AST:
+        """β-reductions on resolved expressions: (a, b, c)[1] → b ; [f(x) for x in X][IT] → f(X[IT]) ; np.array(L)[i] → L[i]."""
+        if depth <= 0 or not isinstance(e, ast.AST):
+            return e
+        new = copy.copy(e)
+        for fname, v in ast.iter_fields(e):
+            if isinstance(v, ast.AST) and not isinstance(v, (ast.expr_context, ast.operator, ast.unaryop, ast.cmpop, ast.boolop)):
+                setattr(new, fname, self.simplify(v, at, depth))
+            elif isinstance(v, list):
+                setattr(new, fname, [self.simplify(x, at, depth) if isinstance(x, ast.AST) and not isinstance(x, ast.cmpop) else x for x in v])
+        e = new
+        if isinstance(e, ast.Subscript):
+            b, sl = e.value, e.slice
+            if isinstance(b, ast.Call) and call_name(b) in ("np.array", "np.asarray", "list", "tuple") and len(b.args) >= 1 and not isinstance(sl, (ast.Slice, ast.Tuple)):
+                return self.simplify(ast.Subscript(value=b.args[0], slice=sl, ctx=ast.Load()), at, depth - 1)
+            if isinstance(b, (ast.Tuple, ast.List)) and isinstance(sl, ast.Constant) and isinstance(sl.value, int) and -len(b.elts) <= sl.value < len(b.elts):
+                return b.elts[sl.value]
+            if isinstance(b, (ast.ListComp, ast.GeneratorExp)) and isinstance(sl, ast.Name) and sl.id.startswith("IT"):
+                return self.comp_element(b, at, depth - 1)
+        return e
+
+    def element(self, e: ast.AST, at: int) -> Optional[ast.AST]:
+        """Element (at an abstract position) of a list-valued expression: a comprehension, np.array(list), or a local list
+        built by `x = []` + `x.append(v)` in a loop nest."""
+        if isinstance(e, ast.Call) and call_name(e) in ("np.array", "np.asarray", "list", "tuple") and e.args:
+            return self.element(e.args[0], at)
+        if isinstance(e, (ast.ListComp, ast.GeneratorExp)):
+            return self.comp_element(e, at)
+        if isinstance(e, ast.Name):
+            ds = self.du.reaching(e.id, at)
+            if len(ds) == 1 and ds[0].value is not None:
+                v = ds[0].value
+                if (isinstance(v, ast.List) and not v.elts) or norm(v) == "list()":
+                    apps = [c for c in ast.walk(self.node) if isinstance(c, ast.Call) and isinstance(c.func, ast.Attribute) and c.func.attr == "append"
+                            and norm(c.func.value) == e.id and len(c.args) == 1]
+                    if len(apps) == 1:
+                        st = apps[0]
+                        while st in self.pm and not isinstance(st, ast.stmt):
+                            st = self.pm[st]
+                        return self.simplify(self.resolve(apps[0].args[0], self.cfg.node(st)), at)
+                    return None
+                return self.element(v, ds[0].node)
+        return None
+
     def rnorm(self, e: ast.AST, at: Optional[int] = None) -> str:
         return norm(self.resolve(e, at))
 
